@@ -1,9 +1,13 @@
 import AcmedVerif.Props.C01Ident
 open AcmedVerif.Props.C01Ident
 #print axioms punycode_ascii
+#print axioms punycode_total_partial
+#print axioms punycode_total_full_is_false
 #print axioms idna_label_shape
 #print axioms idna_ascii_idempotent
 #print axioms idna_idempotent
 #print axioms idna_label_count
 #print axioms order_ids_exact
 #print axioms csr_sans_perm_order
+#print axioms judge_accepts_idna
+#print axioms judge_accepts_model
